@@ -202,12 +202,8 @@ theorem deltaTail_ne_panic (h : DeltaHead) (prev input : Bytes) :
         have : sliceTo ‹Bytes› l = .val (List.take l.toNat ‹Bytes›) := sliceTo_ok _ _ (by omega) (by omega)
         simp [this, Outcome.bind]
 
-theorem goAdd1_of_ne (x : Int) (h : x ≠ maxInt64) : goAdd1 x = x + 1 := by
-  simp [goAdd1, h]
-
-theorem deltaBody_ne_panic (h : DeltaHead) (hm : h.prevLen ≠ maxInt64) : deltaBody h ≠ .panic := by
+theorem deltaBody_ne_panic (h : DeltaHead) : deltaBody h ≠ .panic := by
   unfold deltaBody
-  rw [goAdd1_of_ne _ hm]
   split
   · simp
   · rename_i hg
@@ -218,38 +214,11 @@ theorem deltaBody_ne_panic (h : DeltaHead) (hm : h.prevLen ≠ maxInt64) : delta
     simp only [h2, h3, Outcome.bind]
     exact deltaTail_ne_panic _ _ _
 
-/-- the guarded code panics exactly when the declared prev-payload length is MaxInt64
-(`prevPayloadLength+1` wraps around, the guard is then false) -/
-theorem deltaBody_panic_iff (h : DeltaHead) : deltaBody h = .panic ↔ h.prevLen = maxInt64 := by
-  constructor
-  · intro hp
-    by_cases hm : h.prevLen = maxInt64
-    · exact hm
-    · exact absurd hp (deltaBody_ne_panic h hm)
-  · intro hm
-    unfold deltaBody
-    have hg : goAdd1 h.prevLen = minInt64 := by simp [goAdd1, hm]
-    rw [hg, hm]
-    have hnot : ¬ (maxInt64 < 0 ∨ (h.rest.length : Int) < minInt64) := by
-      unfold maxInt64 minInt64; omega
-    rw [if_neg hnot]
-    cases hs : sliceTo h.rest maxInt64 with
-    | panic => rfl
-    | val a =>
-      have : sliceFrom h.rest minInt64 = .panic :=
-        (sliceFrom_panic_iff _ _).2 (Or.inl (by unfold minInt64; omega))
-      simp [Outcome.bind, this]
-
-theorem parseDeltaPush_panic_iff (input : Bytes) :
-    parseDeltaPush input = .panic ↔ ∃ h, deltaHead input = .ok h ∧ h.prevLen = maxInt64 := by
+theorem parseDeltaPush_ne_panic (input : Bytes) : parseDeltaPush input ≠ .panic := by
   unfold parseDeltaPush
-  cases hd : deltaHead input with
-  | error e => simp
-  | ok h =>
-    simp only [deltaBody_panic_iff]
-    constructor
-    · intro hm; exact ⟨h, rfl, hm⟩
-    · rintro ⟨h', he, hm⟩; cases he; exact hm
+  split
+  · simp
+  · exact deltaBody_ne_panic _
 
 theorem extractPositioned_ne_panic (data content : Bytes) :
     extractPositioned data content ≠ .panic := by
@@ -266,45 +235,26 @@ theorem extractPositioned_ne_panic (data content : Bytes) :
       simp only [this, Outcome.bind]
       split <;> simp
 
-theorem extractDelta_panic_iff (content : Bytes) :
-    extractDelta content = .panic ↔ parseDeltaPush content = .panic := by
-  unfold extractDelta
-  cases h : parseDeltaPush content with
-  | panic => simp [Outcome.bind]
-  | val r => cases r <;> simp [Outcome.bind]
-
-/-- the current code panics exactly on `overflowClass` -/
-theorem extractPushData_panic_iff (data : Bytes) :
-    extractPushData data = .panic ↔ overflowClass data = true := by
-  unfold extractPushData overflowClass
-  by_cases hp : data.take 2 ≠ [95, 95]
-  · simp [hp]
-  · rw [if_neg hp, if_neg hp]
-    cases hc : data.drop 2 with
-    | nil => simp
-    | cons ct tl =>
-      simp only
-      by_cases h1 : ct = 106
-      · have : ¬ ct = 100 := by rw [h1]; decide
-        simp [h1, extractJoinLeave_ne_panic]
-      · by_cases h2 : ct = 108
-        · simp [h2, extractJoinLeave_ne_panic]
-        · by_cases h3 : ct = 112
-          · simp [h3, extractPositioned_ne_panic]
-          · by_cases h4 : ct = 100
-            · subst h4
-              simp only [if_neg h1, if_neg h2, if_neg h3, if_true]
-              rw [extractDelta_panic_iff, parseDeltaPush_panic_iff]
-              cases hd : deltaHead (100 :: tl) with
-              | error e => simp
-              | ok h => simp
-            · simp [h1, h2, h3, h4]
-
-theorem extractPushData_ne_panic (data : Bytes) (h : overflowClass data = false) :
-    extractPushData data ≠ .panic := by
-  intro hp
-  rw [(extractPushData_panic_iff data).1 hp] at h
-  cases h
+theorem extractPushData_ne_panic (data : Bytes) : extractPushData data ≠ .panic := by
+  unfold extractPushData
+  split
+  · simp
+  · simp only
+    split
+    · simp
+    · split
+      · exact extractJoinLeave_ne_panic _ _ _
+      · split
+        · exact extractJoinLeave_ne_panic _ _ _
+        · split
+          · exact extractPositioned_ne_panic _ _
+          · split
+            · unfold extractDelta
+              have := parseDeltaPush_ne_panic (List.drop 2 data)
+              cases h : parseDeltaPush (List.drop 2 data) with
+              | panic => exact absurd h this
+              | val r => cases r <;> simp [Outcome.bind]
+            · simp
 
 theorem deltaTail_agrees (h : DeltaHead) (prev input : Bytes) (r) :
     deltaTailPre h prev input = .val r → deltaTail h prev input = .val r := by
@@ -322,16 +272,15 @@ theorem deltaTail_agrees (h : DeltaHead) (prev input : Bytes) (r) :
         · simp [hlt]
         · simp [hneg, hlt]
 
-theorem deltaBody_agrees (h : DeltaHead) (hm : h.prevLen ≠ maxInt64) (r) :
+theorem deltaBody_agrees (h : DeltaHead) (r) :
     deltaBodyPre h = .val r → deltaBody h = .val r := by
   unfold deltaBodyPre deltaBody
-  rw [goAdd1_of_ne _ hm]
   by_cases hneg : h.prevLen < 0
   · have hp : sliceTo h.rest h.prevLen = .panic := (sliceTo_panic_iff _ _).2 (Or.inl hneg)
     have : ¬ ((h.rest.length : Int) < h.prevLen) := by omega
     simp [this, hp, Outcome.bind]
   · by_cases hlt : (h.rest.length : Int) < h.prevLen
-    · have : h.prevLen < 0 ∨ (h.rest.length : Int) < h.prevLen + 1 := Or.inr (by omega)
+    · have : h.prevLen < 0 ∨ (h.rest.length : Int) ≤ h.prevLen := Or.inr (by omega)
       simp [hlt, this]
     · by_cases heq : h.prevLen = (h.rest.length : Int)
       · have h2 : sliceTo h.rest h.prevLen = .val (h.rest.take h.prevLen.toNat) :=
@@ -342,7 +291,7 @@ theorem deltaBody_agrees (h : DeltaHead) (hm : h.prevLen ≠ maxInt64) (r) :
         simp only [Outcome.bind]
         rw [h3]
         intro hc; cases hc
-      · have : ¬ (h.prevLen < 0 ∨ (h.rest.length : Int) < h.prevLen + 1) := by omega
+      · have : ¬ (h.prevLen < 0 ∨ (h.rest.length : Int) ≤ h.prevLen) := by omega
         rw [if_neg hlt, if_neg this]
         cases sliceTo h.rest h.prevLen with
         | panic => simp [Outcome.bind]
@@ -351,13 +300,12 @@ theorem deltaBody_agrees (h : DeltaHead) (hm : h.prevLen ≠ maxInt64) (r) :
           | panic => simp [Outcome.bind]
           | val b => simp only [Outcome.bind]; exact deltaTail_agrees _ _ _ _
 
-theorem parseDeltaPush_agrees (input : Bytes)
-    (hm : ∀ h, deltaHead input = .ok h → h.prevLen ≠ maxInt64) (r) :
+theorem parseDeltaPush_agrees (input : Bytes) (r) :
     parseDeltaPushPre input = .val r → parseDeltaPush input = .val r := by
   unfold parseDeltaPushPre parseDeltaPush
-  cases hd : deltaHead input with
-  | error e => exact id
-  | ok h => exact deltaBody_agrees _ (hm h hd) _
+  split
+  · exact id
+  · exact deltaBody_agrees _ _
 
 theorem extractPositioned_agrees (data content : Bytes) (r) :
     extractPositionedPre data content = .val r → extractPositioned data content = .val r := by
@@ -377,39 +325,26 @@ theorem extractPositioned_agrees (data content : Bytes) (r) :
       rw [if_neg this]
       exact id
 
-theorem extractPushData_agrees (data : Bytes) (ho : overflowClass data = false) (r) :
+theorem extractPushData_agrees (data : Bytes) (r) :
     extractPushDataPre data = .val r → extractPushData data = .val r := by
-  unfold overflowClass at ho
   unfold extractPushDataPre extractPushData
   split
   · exact id
-  · rename_i hp
-    rw [if_neg hp] at ho
-    simp only
-    cases hc : data.drop 2 with
-    | nil => exact id
-    | cons ct tl =>
-      rw [hc] at ho
-      simp only at ho ⊢
-      split
+  · simp only
+    split
+    · exact id
+    · split
       · exact id
       · split
         · exact id
         · split
           · exact extractPositioned_agrees _ _ _
           · split
-            · rename_i h4
-              subst h4
-              simp only [if_true] at ho
-              have hm : ∀ h, deltaHead (100 :: tl) = .ok h → h.prevLen ≠ maxInt64 := by
-                intro h hd hmx
-                rw [hd] at ho
-                simp [hmx] at ho
-              unfold extractDeltaPre extractDelta
-              cases h : parseDeltaPushPre (100 :: tl) with
+            · unfold extractDeltaPre extractDelta
+              cases h : parseDeltaPushPre (List.drop 2 data) with
               | panic => simp [Outcome.bind]
               | val q =>
-                rw [parseDeltaPush_agrees _ hm _ h]
+                rw [parseDeltaPush_agrees _ _ h]
                 exact id
             · exact id
 
